@@ -17,7 +17,7 @@ HasTempl(doc, path) == \E t \in 1..Len(doc.templates) : TemplStr(doc.templates[t
 
 (* the legacy router did what its pinned model does, and that is a route *)
 LegacyAsPinned(doc, req, obs) ==
-   LET p == LegacyObs(doc, req, FALSE, FALSE, FALSE) IN
+   LET p == CurLegacyObs(doc, req) IN
    /\ obs.k = "route" /\ p.k = "route" /\ obs.path = p.path /\ obs.m = p.m /\ obs.op = p.op
    /\ SameParams(obs.params, p.params)
 
@@ -42,11 +42,11 @@ LegacyTrailingSlash(doc, req, obs) ==
 (* outside the nine it knows.                                                            *)
 LegacyUnknownMethodPanic(doc, req, obs) ==
    /\ obs.k = "panic" /\ req.m \notin Std9
-   /\ LegacyObs(doc, req, FALSE, FALSE, FALSE).k = "panic"
+   /\ CurLegacyObs(doc, req).k = "panic"
 
 (* the gorillamux router did what its pinned model does *)
 MuxAsPinned(doc, req, obs) ==
-   LET p == MuxObs(doc, req, FALSE, FALSE) IN
+   LET p == CurMuxObs(doc, req) IN
    /\ Gist(obs) = Gist(p)
    /\ obs.k = "route" => obs.m = p.m /\ obs.op = p.op /\ SameParams(obs.params, p.params)
 
@@ -66,7 +66,7 @@ MuxMethodShadow(doc, req, obs, failed) ==
 (* model's, and the model with a loop-local server list answers differently.             *)
 MuxServersLeak(doc, req, obs) ==
    /\ HasOverride(doc) /\ MuxAsPinned(doc, req, obs)
-   /\ Gist(MuxObs(doc, req, FALSE, TRUE)) # Gist(MuxObs(doc, req, FALSE, FALSE))
+   /\ Gist(MuxObs(doc, req, FALSE, TRUE)) # Gist(CurMuxObs(doc, req))
 
 (* F-C09-6: the legacy router never looks at path-level servers.  The observation is     *)
 (* correct (or deviates in one of the other legacy classes) for the document without     *)
@@ -80,7 +80,7 @@ LegacyClass(doc, req, obs) ==
 Class(doc, req, router, obs, failed) ==
    IF router = "l" THEN
       (IF ~HasOverride(doc) THEN LegacyClass(doc, req, obs)
-       ELSE IF Gist(obs) # Gist(LegacyObs(doc, req, FALSE, FALSE, FALSE)) THEN "none"
+       ELSE IF Gist(obs) # Gist(CurLegacyObs(doc, req)) THEN "none"
        ELSE IF Failed(Flat(doc), req, obs) = {} THEN "legacy_ignores_path_servers"
        ELSE LegacyClass(Flat(doc), req, obs))
    ELSE IF router = "g" /\ obs.k = "rerr" /\ MuxMethodShadow(doc, req, obs, failed) THEN "mux_method_mismatch_shadows_later_template"
